@@ -54,7 +54,7 @@ type ObjSpec struct {
 
 // FaultPlan counts the transport faults planned by the generator (they fire when executed).
 type FaultPlan struct {
-	Drop, Dup, Delay, Reorder, Corrupt, Burst, BadValue int
+	Drop, Dup, Delay, Reorder, Corrupt, Burst, BadValue, Repad int
 }
 
 // RunSpec is a complete description of one simulated run.
@@ -123,6 +123,7 @@ type doneEv struct {
 	Probes     []Violation    `json:"probes,omitempty"`
 	Errs       int            `json:"err_results"`
 	Panics     int            `json:"panic_results"`
+	WallMs     int64          `json:"wall_ms"`
 }
 
 type violEv struct {
